@@ -234,6 +234,10 @@ class ScriptedComponent:
             return False, "60 Client certificate required\r\n"
         if o == "denyNoText":
             return False, self.h.rnd.choice([None, ""])
+        if o == "denyMalformed":
+            # a refusal whose text is not a response header
+            return False, self.h.rnd.choice(["Access denied", "99 x\r\n", "7 x\r\n", "53 a\r\n20 text/gemini\r\nBODY", "53 no terminator",
+                                             "53 " + "m" * 3000 + "\r\n", "53 a\rb\r\n", "44 slow down\n", "\r\n", "530 x\r\n"])
         if o == "raise":
             _raise("raise", self.h.rnd)
         raise ValueError(o)
